@@ -66,7 +66,7 @@ def leastsq(f, x0, *a, **k):
         return _REAL["leastsq"](f, x0, *a, **k)
     cells = {n: c.cell_contents for n, c in zip(f.__code__.co_freevars, f.__closure__ or ())}
     if "xs" not in cells or "ys" not in cells:
-        raise Inconclusive("leastsq stub: objective closure has no xs/ys")
+        return _REAL["leastsq"](f, x0, *a, **k)      # not forsys's circle fit (e.g. lmfit's own use of MINPACK)
     xs, ys = list(cells["xs"]), list(cells["ys"])
     if not has_sym(xs) and not has_sym(ys) and not has_sym(list(x0)):
         return _REAL["leastsq"](f, x0, *a, **k)
@@ -217,6 +217,21 @@ class _SymParam:
         self.min = vmin
 
 
+class SymParameters(dict):
+    """stands in for lmfit.Parameters while a symbolic exploration is active (values may be symbols)."""
+
+    def add(self, name, value=None, vary=True, min=-np.inf, max=np.inf, **k):
+        self[name] = _SymParam(value, min)
+        self[name].max = max
+        self[name].vary = vary
+
+
+def lmfit_parameters(*a, **k):
+    if sym_mode():
+        return SymParameters()
+    return _REAL["lmfit_Parameters"](*a, **k)
+
+
 class _MinResult:
     def __init__(self, params):
         self.params = params
@@ -228,6 +243,11 @@ def lmfit_minimize(cost, params, args=(), **k):
         return _REAL["lmfit_minimize"](cost, params, args=args, **k)
     symbolic = sym_mode() and (any(has_sym(a) for a in args) or any(isinstance(params[n].value, SymReal) for n in params))
     if not symbolic:
+        if isinstance(params, SymParameters):
+            real = _REAL["lmfit_Parameters"]()
+            for n in params:
+                real.add(n, float(params[n].value), min=params[n].min, max=getattr(params[n], "max", np.inf))
+            params = real
         args_f = tuple(np.asarray(a, dtype=float) if isinstance(a, np.ndarray) else a for a in args)
         r = _REAL["lmfit_minimize"](cost, params, args=args_f, **k)
         cap("lmfit", args=args_f, x0=[params[n].value for n in params], x=[r.params[n].value for n in r.params],
@@ -400,7 +420,9 @@ def install():
     try:
         import lmfit
         _REAL["lmfit_minimize"] = lmfit.minimize
+        _REAL["lmfit_Parameters"] = lmfit.Parameters
         lmfit.minimize = lmfit_minimize
+        lmfit.Parameters = lmfit_parameters
     except ModuleNotFoundError:
         pass
     shim.PROXY.linalg.over["inv"] = linalg_inv
